@@ -193,6 +193,25 @@ def m_is_empty(ctx):
     return [ctx.ret(("bool", ("eq", L)))]
 
 
+def m_range_contains(ctx):
+    """(lo..hi).contains(&x) / (lo..=hi).contains(&x) on integers: the conjunction of the two comparisons."""
+    eng, st = ctx.eng, ctx.st
+    r, x = ctx.args[0], ctx.args[1]
+    if r[0] != "ptr" or x[0] != "ptr":
+        return None
+    it = ctx.argtys[1]
+    ity = eng.ty(it["to"]) if it.get("k") in ("ref", "rawptr") else it
+    if ity.get("k") != "int":
+        return None
+    lo = eng.read(st, r[1] + (("f", 0),), ity, "rng")
+    hi = eng.read(st, r[1] + (("f", 1),), ity, "rng")
+    xv = eng.read(st, x[1], ity, "item")
+    if lo[0] != "int" or hi[0] != "int" or xv[0] != "int":
+        return None
+    incl = "RangeInclusive" in ctx.path
+    return [ctx.ret(("bool", ("and", (("le", lo[1] - xv[1]), ("le", xv[1] - hi[1] + (0 if incl else 1))))))]
+
+
 def m_index(ctx):
     eng, st = ctx.eng, ctx.st
     base, off, L = slice_parts(ctx, 0)
@@ -291,6 +310,31 @@ def m_first_last(ctx):
     none.add_eq(L)
     set_variant(ctx, some, "Some", ("ptr", (eng.new_obj(),)))
     set_variant(ctx, none, "None")
+    return [x for x in (some, none) if not x.dead]
+
+
+def m_split_first_last(ctx):
+    """slice.split_first() / split_last(): Some((&elem, rest)) iff the slice is not empty; rest is the slice without its
+    first (last) element."""
+    eng, st = ctx.eng, ctx.st
+    base, off, L = slice_parts(ctx, 0)
+    if L is None:
+        return None
+    first = ctx.path.split("::")[-1].startswith("split_first")
+    some, none = st.copy(), st
+    some.add(Lin.const(1) - L)
+    none.add_eq(L)
+    set_variant(ctx, none, "None")
+    dp = ctx.dest_path(some)
+    if dp is None:
+        return None
+    set_variant(ctx, some, "Some")
+    vi = [i for i, v in enumerate(ctx.dty.get("variants", [])) if v["name"] == "Some"]
+    if not vi:
+        return None
+    pay = dp + (("dc", vi[0]), ("f", 0))
+    eng.write_path(some, pay + (("f", 0),), ("ptr", (eng.new_obj(),)))
+    eng.write_path(some, pay + (("f", 1),), ("slice", base, (off + 1) if first else off, L - 1))
     return [x for x in (some, none) if not x.dead]
 
 
@@ -804,11 +848,23 @@ def m_checked(ctx):
         op = {"checked_add": "Add", "checked_sub": "Sub", "checked_mul": "Mul"}.get(name)
         if op:
             res = eng.arith(st, op, a, b, pty)
+    hi_ok = lo_ok = False
+    if res is not None and isinstance(res, Lin):
+        hi_ok = bool(st.entails(res - r[1]))               # the mathematical result can never exceed the type
+        lo_ok = bool(st.entails(Lin.const(r[0]) - res))    # ... never fall below it
     some, none = st.copy(), st
     if res is not None:
         some.add(res - r[1])
         some.add(Lin.const(r[0]) - res)
         set_variant(ctx, some, "Some", V_int(res))
+        # None means the result left the type's range: on the one side it can leave it
+        if isinstance(res, Lin):
+            if hi_ok and lo_ok:
+                none.dead = True
+            elif hi_ok:
+                none.add(res - Lin.const(r[0]) + 1)
+            elif lo_ok:
+                none.add(Lin.const(r[1]) + 1 - res)
     else:
         set_variant(ctx, some, "Some", eng.fresh_for(some, pty, "chk"))
     set_variant(ctx, none, "None")
@@ -1053,7 +1109,9 @@ EXACT = {
     "core::slice::<impl [T]>::split_at": m_split_at, "core::slice::<impl [T]>::split_at_mut": m_split_at,
     "core::slice::<impl [T]>::copy_from_slice": m_same_len,
     "core::slice::<impl [T]>::clone_from_slice": m_same_len,
+    "std::ops::RangeInclusive::<Idx>::contains": m_range_contains, "std::ops::Range::<Idx>::contains": m_range_contains,
     "core::slice::<impl [T]>::first": m_first_last,
+    "core::slice::<impl [T]>::split_first": m_split_first_last, "core::slice::<impl [T]>::split_last": m_split_first_last,
     "core::slice::<impl [T]>::last": m_first_last,
     "core::slice::<impl [T]>::iter": m_slice_iter,
     "core::slice::<impl [T]>::iter_mut": m_slice_iter,
